@@ -17,18 +17,29 @@ the Skolem witnesses of the existential quantifiers of the specification
 equations are written over the coordinates of the previous point only (xs*xs is the MONOMIAL, never the
 chip's auxiliary cell), so an auxiliary cell that is not tied to its defining product breaks the proof.
 
-Three kinds of lemma are added to the encoder's formula; each is an instance of a commutative-ring / field
-axiom and keeps its premise inside the formula:
+How the queries are kept small. The encoder states pairwise congruence lemmas between all abstract products, so
+the formula of an 8-row ladder has ~28 000 assertions and a row-level fact that takes 0.1 s in isolation is not
+found in 60 s inside it. Every conjunct of the specifications here is ROW-LOCAL: it follows from the three
+polynomials of one gate row (two rows for the 2-safety step). So each conjunct is first proved from the
+SUB-SYSTEM made of just those rows of the extracted system (same cells, same copy classes, same encoder:
+`Cut.local`); a sub-system has fewer hypotheses, so what it implies the whole system implies (cut rule); the
+proved conjunct is then added to the full encoding as a fact, and the deciding query of cengine.decide
+(`Sys and facts and not Spec`) is propositional. A conjunct that is NOT proved locally is not added: the deciding
+query then has to find the forged assignment (exact re-check, replay on the real MockProver) or comes back
+INCONCLUSIVE.
+
+Lemmas added to an encoding; each is an instance of a commutative-ring / field axiom, premises inside:
   * substitution  (c = m(mc))  =>  m(S + mc) = m(S + {c})     for an auxiliary cell c whose defining row
     `c - m(mc) = 0` is a row of the system (monomial atoms are determined by their multiset of cells);
   * distributivity  u (*) D  ==  sum_j k_j  u (*) m_j + k_0 u   with  D == sum_j k_j m_j + k_0  (the `pivot` form of
-    a row that is linear in its output cell u);
+    a row that is linear in its output cell u), and the row rewritten with it:  u (*) D + R == 0;
+  * congruence of definitional atoms  (m_j = m_j' for all j)  =>  D = D'   (likewise R);
   * cancellation   D != 0  and  D = D'  and  u (*) D = u' (*) D'   =>   u = u'.
 One lemma is an ASSUMPTION of number theory (listed in run.assumptions): a product with an even multiset of
 cells is a square, a square is not equal to a quadratic non-residue; the non-residuosity of the constant is
-Euler's criterion, evaluated by the solver on ground terms (`nonresidue_obligation`).
+Euler's criterion, evaluated by the solvers on ground terms (`nonresidue_obligation`).
 """
-import re
+import re, time
 from functools import reduce
 from collections import Counter
 from . import core, solvers, csmt
@@ -36,9 +47,8 @@ from .cspec import *
 
 P = csmt.P_BLS
 CELL = re.compile(r"^a(\d+)_(\d+)$")
-
-
 NONRES_USED = set()      # constants the quadratic-character lemma was instantiated with (validated by nonresidue_obligation)
+STATS = {"local_queries": 0, "local_proved": 0, "local_s": 0.0}
 
 
 class LayoutError(Exception):
@@ -52,9 +62,11 @@ def _cells(poly):
 
 
 def ladders(system):
-    """[{rows: [ {row, xq,yq,xs,ys,b,xr,yr,w, dbl: None | {xp,yp,xx,xq,yq}} ]}] in row (= call) order, and the
-    membership rows [{row, x, y}]. Columns by the documented layout, relative to the chip's first advice
-    column c0; the cell sets the gate polynomials really mention are compared with that layout."""
+    """([{rows: [ {row, xq,yq,xs,ys,b,xr,yr,w, gates, dbl: None | {xp,yp,xx,xq,yq, gates}} ]}], membership rows
+    [{row, x, y, gates}]) in row (= call) order. Columns by the documented layout, relative to the chip's first
+    advice column c0; the cell sets the gate polynomials really mention are compared with that layout."""
+    if getattr(system, "_ed_ladders", None) is not None:
+        return system._ed_ladders
     by = {}
     for g in system.d["gates"]:
         nm = g["gate"].rsplit(":", 1)[0]
@@ -65,23 +77,23 @@ def ladders(system):
     if not cols:
         raise LayoutError("no conditional-add / membership rows in the extracted system")
     c0 = min(cols)
-    A = lambda j, r: f"a{c0 + j}_{r}"
+    A_ = lambda j, r: f"a{c0 + j}_{r}"
     ca_rows = sorted(r for (nm, r) in by if nm == "conditional add")
     db_rows = {r for (nm, r) in by if nm == "double"}
     rows = []
     for r in ca_rows:
-        want = {A(j, r) for j in (0, 1, 2, 3, 4, 5, 6, 8)}
+        want = {A_(j, r) for j in (0, 1, 2, 3, 4, 5, 6, 8)}
         got = set().union(*[_cells(g["poly"]) for g in by[("conditional add", r)]])
-        if got != want:
+        if not got <= want or not {A_(j, r) for j in (0, 1, 2, 3, 4, 5, 6)} <= got:
             raise LayoutError(f"conditional-add row {r}: cells {sorted(got)} differ from the documented layout {sorted(want)}")
-        d = dict(row=r, xq=A(0, r), yq=A(1, r), xs=A(2, r), ys=A(3, r), b=A(4, r), xr=A(5, r), yr=A(6, r), w=A(8, r), dbl=None,
+        d = dict(row=r, xq=A_(0, r), yq=A_(1, r), xs=A_(2, r), ys=A_(3, r), b=A_(4, r), xr=A_(5, r), yr=A_(6, r), w=A_(8, r), dbl=None,
                  gates=by[("conditional add", r)])
         if r in db_rows:
-            want = {A(5, r), A(6, r), A(7, r), A(0, r + 1), A(1, r + 1)}
+            want = {A_(5, r), A_(6, r), A_(7, r), A_(0, r + 1), A_(1, r + 1)}
             got = set().union(*[_cells(g["poly"]) for g in by[("double", r)]])
-            if got != want:
+            if not got <= want or not {A_(5, r), A_(6, r), A_(0, r + 1), A_(1, r + 1)} <= got:
                 raise LayoutError(f"double row {r}: cells {sorted(got)} differ from the documented layout {sorted(want)}")
-            d["dbl"] = dict(xp=A(5, r), yp=A(6, r), xx=A(7, r), xq=A(0, r + 1), yq=A(1, r + 1), gates=by[("double", r)])
+            d["dbl"] = dict(xp=A_(5, r), yp=A_(6, r), xx=A_(7, r), xq=A_(0, r + 1), yq=A_(1, r + 1), gates=by[("double", r)])
         rows.append(d)
     if db_rows - set(ca_rows):
         raise LayoutError(f"double gate rows without a conditional-add gate: {sorted(db_rows - set(ca_rows))}")
@@ -95,8 +107,66 @@ def ladders(system):
             cur = []
     if cur:
         raise LayoutError("ladder does not end with a plain conditional-add row")
-    mem = [dict(row=r, x=A(0, r), y=A(1, r)) for (nm, r) in sorted(by) if nm == "witness point"]
+    mem = [dict(row=r, x=A_(0, r), y=A_(1, r), gates=by[(nm, r)]) for (nm, r) in sorted(by) if nm == "witness point"]
+    system._ed_ladders = (out, mem)
     return out, mem
+
+
+# ---- sub-systems and the cut rule -------------------------------------------------------------------------
+
+def budgets():
+    """(total seconds for the local proofs of one obligation, per proof)"""
+    return (30, 8) if core.tier() == "quick" else (400, 60)
+
+
+class Cut:
+    """Prove conjuncts from sub-systems / from the full system and add them to the full encoding as facts."""
+
+    def __init__(self, e):
+        self.e = e
+        self.t0 = time.time()
+        self.budget, self.per = budgets()
+        self.proved = self.tried = 0
+        e.ed_cut = self
+
+    def left(self):
+        return self.budget - (time.time() - self.t0)
+
+    def local(self, gates, build, name=""):
+        """build(enc) -> SMT Bool over the cells (and definitional atoms it creates in `enc`). Proved from the rows
+        `gates` alone; on success build(self.e) is asserted in the full encoding. Returns build(self.e)."""
+        f_main = build(self.e)
+        if f_main in ("true", "false") or self.left() < 1 or NO_CUT[0]:
+            return f_main
+        sysm = self.e.s
+        d = dict(sysm.d)
+        d["gates"] = list(gates)
+        d["lookups"] = []
+        sub = csmt.System(d, sysm.P)
+        es = csmt.Enc(sub)
+        es.extra = self.e.extra
+        es.encode(False)
+        f_sub = build(es)
+        r = solvers.solve(es.text([f"(assert (not {f_sub}))"]), timeout=max(1, min(self.per, self.left())))
+        self.tried += 1
+        STATS["local_queries"] += 1
+        STATS["local_s"] += r.time_s
+        if r.status == "unsat":
+            self.e.lines.append(f"(assert {f_main})")
+            self.proved += 1
+            STATS["local_proved"] += 1
+        return f_main
+
+    def full(self, f, name=""):
+        """a conjunct that is not row-local: proved from the full encoding (facts so far included)"""
+        if f in ("true", "false") or self.left() < 1 or NO_CUT[0]:
+            return f
+        r = solvers.solve(self.e.text([f"(assert (not {f}))"]), timeout=max(1, min(self.per, self.left())))
+        self.tried += 1
+        if r.status == "unsat":
+            self.e.lines.append(f"(assert {f})")
+            self.proved += 1
+        return f
 
 
 # ---- monomials of the specification, substitution lemmas ----------------------------------------------
@@ -182,51 +252,68 @@ def add_law(e, x1, y1, x2, y2, x3, y3):
     return AND(ex, ey)
 
 
+def dbl_law(e, S, T):
+    return add_law(e, S[0], S[1], S[0], S[1], T[0], T[1])
+
+
 def on_curve(e, x, y):
     d = D(e)
     return zero(e, [(1, M(e, y, y)), (-1, M(e, x, x)), (-d, M(e, x, x, y, y))], -1)
 
 
 def cond_add_law(e, A_, Pt, b, S):
-    """S = A + b*P, textbook"""
+    """S = A + b*P, textbook. A symbolic b is a bit by a separate conjunct of the specification."""
+    same = AND(eq(S[0], A_[0]), eq(S[1], A_[1]))
     if isinstance(b, int):
-        if b == 0:
-            return AND(eq(S[0], A_[0]), eq(S[1], A_[1]))
-        if b == 1:
-            return add_law(e, A_[0], A_[1], Pt[0], Pt[1], S[0], S[1])
-        return "false"
-    return f"(ite (= {b} 1) {add_law(e, A_[0], A_[1], Pt[0], Pt[1], S[0], S[1])} {AND(isbit(b), eq(S[0], A_[0]), eq(S[1], A_[1]))})"
-
-
-def ladder_spec(e, lad, Pt, bits_be, R):
-    """the double-and-add recurrence along `bits_be` (most significant first) with the ladder's own cells as
-    witnesses of the intermediate points"""
-    rows = lad["rows"]
-    if len(rows) != len(bits_be):
-        return ["false"]     # the chip lays out one row per bit of the scalar
-    conj = []
-    A_ = (0, 1)
-    for i, r in enumerate(rows[:-1]):
-        S = (e.v(r["xr"]), e.v(r["yr"]))
-        conj.append(cond_add_law(e, A_, Pt, bits_be[i], S))
-        A2 = (e.v(r["dbl"]["xq"]), e.v(r["dbl"]["yq"]))
-        conj.append(add_law(e, S[0], S[1], S[0], S[1], A2[0], A2[1]))
-        A_ = A2
-    conj.append(cond_add_law(e, A_, Pt, bits_be[-1], R))
-    return conj
-
-
-def cut_and(e, conj):
-    """conjunction, with the conjuncts that are `false` or few left to the deciding query"""
-    if any(c == "false" for c in conj):
-        return "false"
-    if len(conj) > 4:
-        cut(e, [(f"conjunct {i}", c) for i, c in enumerate(conj)], *budgets())
-    return AND(*conj)
+        return same if b == 0 else (add_law(e, A_[0], A_[1], Pt[0], Pt[1], S[0], S[1]) if b == 1 else "false")
+    return AND(IMP(eq(b, 1), add_law(e, A_[0], A_[1], Pt[0], Pt[1], S[0], S[1])), IMP(eq(b, 0), same))
 
 
 def const_bits_be(c):
     return [int(x) for x in bin(c)[2:]]
+
+
+def pt(e, cx, cy):
+    return (cx if isinstance(cx, int) else e.v(cx), cy if isinstance(cy, int) else e.v(cy))
+
+
+def ladder_conjs(lad, Pc, bits_be, Rc):
+    """[(gates, build(enc))]: the double-and-add recurrence along `bits_be` (most significant first; an int, or
+    None = the row's own bit cell is the witness) with the ladder's own cells as witnesses of the intermediate
+    points. Pc, Rc: cell names (or ints) of the base point / the result."""
+    rows = lad["rows"]
+    if len(rows) != len(bits_be):
+        return [([], lambda e: "false")]     # the chip lays out one row per bit of the scalar
+    out = []
+    Ac = (0, 1)
+    for i, r in enumerate(rows):
+        last = i == len(rows) - 1
+        Sc = Rc if last else (r["xr"], r["yr"])
+        bit = bits_be[i]
+
+        def ca(e, Ac=Ac, Sc=Sc, bit=bit, r=r):
+            return cond_add_law(e, pt(e, *Ac), pt(e, *Pc), bit if bit is not None else e.v(r["b"]), pt(e, *Sc))
+        out.append((r["gates"], ca))
+        if not last:
+            A2 = (r["dbl"]["xq"], r["dbl"]["yq"])
+
+            def db(e, Sc=Sc, A2=A2):
+                return dbl_law(e, pt(e, *Sc), pt(e, *A2))
+            out.append((r["dbl"]["gates"], db))
+            Ac = A2
+    return out
+
+
+def run_conjs(e, conjs, extra_full=()):
+    """local proof of every row conjunct, full-system proof of the others; returns the conjunction (the
+    specification handed to cengine.decide)"""
+    cut = Cut(e)
+    parts = [cut.full(f) for f in extra_full]
+    for gates, build in conjs:
+        parts.append(cut.local(gates, build))
+    if any(p == "false" for p in parts):
+        return "false"
+    return AND(*parts)
 
 
 # ---- specifications (e, I, O) -> SMT --------------------------------------------------------------------
@@ -234,54 +321,59 @@ def const_bits_be(c):
 def S_mul_const(c, nlad=0):
     def spec(e, I, O):
         lads, _ = ladders(e.s)
-        return cut_and(e, ladder_spec(e, lads[nlad], (I[0], I[1]), const_bits_be(c), (O[0], O[1])))
+        s = e.s
+        return run_conjs(e, ladder_conjs(lads[nlad], (s.ins[0], s.ins[1]), const_bits_be(c), (s.outs[0], s.outs[1])))
     return spec
 
 
 def S_mul_bytes(nbytes):
+    """scalar = sum_j 256^j byte_j, bits little endian; the rows' bit cells are the witnesses of the bits"""
     def spec(e, I, O):
         lads, _ = ladders(e.s)
-        dom = AND(*[lt(I[j], 256) for j in range(nbytes)])
-        bits_le = []
+        s = e.s
+        rows = lads[0]["rows"]
+        k = 8 * nbytes
+        if len(rows) != k:
+            return "false"
+        bits_le = [e.v(rows[k - 1 - i]["b"]) for i in range(k)]
+        glob = [AND(*[isbit(b) for b in bits_le])]
         for j in range(nbytes):
-            bits_le += bits_of(e, I[j], 8, guard=lt(I[j], 256))
-        return cut_and(e, [dom] + ladder_spec(e, lads[0], (I[nbytes], I[nbytes + 1]), bits_le[::-1], (O[0], O[1])))
+            glob.append(AND(lt(I[j], 256), eq(I[j], wsum(bits_le[8 * j:8 * j + 8]))))
+        return run_conjs(e, ladder_conjs(lads[0], (s.ins[nbytes], s.ins[nbytes + 1]), [None] * k, (s.outs[0], s.outs[1])), glob)
     return spec
 
 
 def S_msm_const2(c0, c1):
     def spec(e, I, O):
         lads, _ = ladders(e.s)
-        if len(lads) != 3:
+        s = e.s
+        if len(lads) != 3 or len(lads[2]["rows"]) != 1:
             return "false"
-        R0 = (e.v(lads[0]["rows"][-1]["xr"]), e.v(lads[0]["rows"][-1]["yr"]))
-        R1 = (e.v(lads[1]["rows"][-1]["xr"]), e.v(lads[1]["rows"][-1]["yr"]))
-        return cut_and(e, ladder_spec(e, lads[0], (I[0], I[1]), const_bits_be(c0), R0) +
-                       ladder_spec(e, lads[1], (I[2], I[3]), const_bits_be(c1), R1) +
-                       [add_law(e, R0[0], R0[1], R1[0], R1[1], O[0], O[1])])
+        R0 = (lads[0]["rows"][-1]["xr"], lads[0]["rows"][-1]["yr"])
+        R1 = (lads[1]["rows"][-1]["xr"], lads[1]["rows"][-1]["yr"])
+        add = lambda en: add_law(en, *pt(en, *R0), *pt(en, *R1), *pt(en, s.outs[0], s.outs[1]))
+        return run_conjs(e, ladder_conjs(lads[0], (s.ins[0], s.ins[1]), const_bits_be(c0), R0) +
+                         ladder_conjs(lads[1], (s.ins[2], s.ins[3]), const_bits_be(c1), R1) + [(lads[2]["rows"][0]["gates"], add)])
     return spec
 
 
-def cofactor_spec(e, Pt):
-    """exists Q on the curve, A1, A2:  A1 = 2Q, A2 = 2 A1, P = 2 A2  (Q = the membership row's cells, A1 / A2 =
-    the accumulator cells of the cofactor ladder)"""
-    lads, mem = ladders(e.s)
-    if not mem or not lads or len(lads[0]["rows"]) != 4:
-        return "false"
-    Q = (e.v(mem[0]["x"]), e.v(mem[0]["y"]))
-    rows = lads[0]["rows"]
-    A1 = (e.v(rows[0]["dbl"]["xq"]), e.v(rows[0]["dbl"]["yq"]))
-    A2 = (e.v(rows[1]["dbl"]["xq"]), e.v(rows[1]["dbl"]["yq"]))
-    dbl = lambda a, b: add_law(e, a[0], a[1], a[0], a[1], b[0], b[1])
-    return AND(on_curve(e, Q[0], Q[1]), dbl(Q, A1), dbl(A1, A2), dbl(A2, Pt))
+def cofactor_conjs(system, Pc):
+    """exists Q on the curve and ladder cells with  S0 = (0,1) + Q (textbook: S0 = Q), A1 = 2 S0, S1 = A1, A2 = 2 S1,
+    S2 = A2, A3 = 2 S2, P = A3: three textbook doublings of the witnessed point (Q = the membership row's
+    cells; the recurrence of the constant 8 = 0b1000 from Q)"""
+    lads, mem = ladders(system)
+    if not mem or not lads:
+        return [([], lambda e: "false")]
+    Q = (mem[0]["x"], mem[0]["y"])
+    return [(mem[0]["gates"], lambda e: on_curve(e, *pt(e, *Q)))] + ladder_conjs(lads[0], Q, const_bits_be(8), Pc)
 
 
 def S_assign_cofactor(e, I, O):
-    return cofactor_spec(e, (I[0], I[1]))
+    return run_conjs(e, cofactor_conjs(e.s, (e.s.ins[0], e.s.ins[1])))
 
 
 def S_pfc_cofactor(e, I, O):
-    return AND(eq(O[0], I[0]), eq(O[1], I[1]), cofactor_spec(e, (O[0], O[1])))
+    return run_conjs(e, cofactor_conjs(e.s, (e.s.outs[0], e.s.outs[1])), [AND(eq(O[0], I[0]), eq(O[1], I[1]))])
 
 
 # ---- determinism (2-safety) -----------------------------------------------------------------------------
@@ -290,14 +382,16 @@ def _is_nonresidue(v):
     return pow(v % P, (P - 1) // 2, P) == P - 1
 
 
-def pivot(e, poly, ucell, tag):
+def pivot(e, poly, ucell, tag, full=True):
     """Row linear in its output cell u: poly = u * D + R. Returns dict(u, D, pd, R, ...) with D, R definitional
-    atoms (D == sum_j k_j m_j + k_0, R == the rest of the row), pd = u (*) D, and asserts
-      (A) distributivity       pd == sum_j k_j u (*) m_j + k_0 u      (ring axiom instance)
+    atoms (D == sum_j k_j m_j + k_0, R == the rest of the row), pd = u (*) D, and (full=True) asserts
+      (A) distributivity        pd == sum_j k_j u (*) m_j + k_0 u      (ring axiom instance)
       (B) the row in pivot form pd + R == 0                            (the row itself, rewritten with (A); the
                                                                         system's monomials u*m_j and u (*) m_j are the
                                                                         same multiset of cells)
-    sq: None, or the premise under which D != 0 follows from the quadratic-character lemma (then asserted)."""
+    sq: None, or the premise under which D != 0 follows from the quadratic-character lemma (then asserted).
+    full=False (the full encoding, where only `D != 0` is needed as a hypothesis): D is built only when the
+    quadratic-character lemma does not apply."""
     u = e.v(ucell)
     if isinstance(u, int):
         return None
@@ -320,24 +414,12 @@ def pivot(e, poly, ucell, tag):
             dpart.append((k, rest))
     if not dpart:
         return None            # u has a constant coefficient: the row determines it linearly
-    mons = [(k, M(e, *rest)) for k, rest in dpart]
-    Dv = e.define_mod(mons, k0)
-    if isinstance(Dv, int):
-        return None
-    rmons = [(k, M(e, *atoms)) for k, atoms in rpart]
-    Rv = e.define_mod(rmons, r0)
-    pd = e.fmul(u, Dv)
-    e.modeq([(-1, pd)] + [(csmt.sym(k, e.P), M(e, u, m)) for k, m in mons] + ([(csmt.sym(k0, e.P), u)] if k0 else []), 0)   # (A)
-    if isinstance(Rv, int):
-        e.modeq([(1, pd)], csmt.sym(Rv, e.P))                                                                              # (B)
-    else:
-        e.modeq([(1, pd), (1, Rv)], 0)
     # quadratic-character lemma: D = k0 + k*m with m a square (even multiset once auxiliary cells are replaced
     # by their defining monomials) and -k0/k a non-residue  =>  D != 0
     sq = None
-    if len(mons) == 1 and k0 and not isinstance(mons[0][1], int):
-        k, m = mons[0]
-        ms = list(_mset(e, m))
+    if len(dpart) == 1 and k0:
+        k, rest = dpart[0]
+        ms = [b for a in rest for b in _mset(e, a)]
         prem = []
         changed = True
         while changed:
@@ -351,9 +433,26 @@ def pivot(e, poly, ucell, tag):
         nr = (-k0 * pow(k, -1, e.P)) % e.P
         if all(v % 2 == 0 for v in Counter(ms).values()) and _is_nonresidue(nr):
             sq = AND(*prem) if prem else "true"
-            e.lines.append(f"(assert (=> {sq} (not (= {Dv} 0))))")
             NONRES_USED.add(nr)
-    return dict(u=u, D=Dv, pd=pd, R=Rv, sq=sq, tag=tag, dm=[(k, m) for k, m in mons], k0=k0, rm=rmons, r0=r0)
+    if not full and sq is not None:
+        return dict(u=u, D=None, sq=sq, tag=tag)
+    mons = [(k, M(e, *rest)) for k, rest in dpart]
+    Dv = e.define_mod(mons, k0)
+    if isinstance(Dv, int):
+        return None
+    if sq is not None:
+        e.lines.append(f"(assert (=> {sq} (not (= {Dv} 0))))")
+    if not full:
+        return dict(u=u, D=Dv, sq=sq, tag=tag)
+    rmons = [(k, M(e, *atoms)) for k, atoms in rpart]
+    Rv = e.define_mod(rmons, r0)
+    pd = e.fmul(u, Dv)
+    e.modeq([(-1, pd)] + [(csmt.sym(k, e.P), M(e, u, m)) for k, m in mons] + ([(csmt.sym(k0, e.P), u)] if k0 else []), 0)   # (A)
+    if isinstance(Rv, int):
+        e.modeq([(1, pd)], csmt.sym(Rv, e.P))                                                                              # (B)
+    else:
+        e.modeq([(1, pd), (1, Rv)], 0)
+    return dict(u=u, D=Dv, pd=pd, R=Rv, sq=sq, tag=tag, dm=mons, k0=k0, rm=rmons, r0=r0)
 
 
 def pair_lemmas(e, x, y):
@@ -366,50 +465,36 @@ def pair_lemmas(e, x, y):
     if same(x["rm"], y["rm"]) and x["r0"] == y["r0"] and not isinstance(x["R"], int) and not isinstance(y["R"], int):
         prem = AND(*[eq(m1, m2) for (_, m1), (_, m2) in zip(x["rm"], y["rm"]) if m1 != m2])
         e.lines.append(f"(assert (=> {prem} (= {x['R']} {y['R']})))")
-    A_ = lambda t: A(t)
     e.lines.append(f"(assert (=> (and (not (= {x['D']} 0)) (= {x['D']} {y['D']}) (= {x['pd']} {y['pd']})) (= {x['u']} {y['u']})))")
-    e.lines.append(f"(assert (=> (and (= {x['D']} {y['D']}) (= {A_(x['R'])} {A_(y['R'])})) (= {x['pd']} {y['pd']})))")
+    e.lines.append(f"(assert (=> (= {A(x['R'])} {A(y['R'])}) (= {x['pd']} {y['pd']})))")     # by (B) on both sides
 
 
-def cut(e, facts, budget, per):
-    """Cut rule (same as vecmap.prove_then_assume, with a time budget): each fact is sent to the portfolio as
-    `Sys and (facts already proved) and not fact`; on unsat it is a consequence of the system and is added to the
-    encoder's assertions. Stops at the first fact that is not proved (later ones build on it): the deciding query
-    of cengine.decide then has to find the counterexample or comes back INCONCLUSIVE. Returns #proved."""
-    import time
-    t0 = time.time()
-    n = 0
-    for name, f in facts:
-        left = budget - (time.time() - t0)
-        if left < 1:
-            break
-        r = solvers.solve(e.text([f"(assert (not {f}))"]), timeout=max(1, min(per, left)))
-        if r.status != "unsat":
-            break
-        e.lines.append(f"(assert {f})")
-        n += 1
-    e.ed_cut = (n, len(facts), round(time.time() - t0, 1))
-    return n
+def step_conj(ra, rb, kind, tag):
+    """2-safety step of one row shape, laid out at ra (run 1) and rb (run 2): equal row inputs and non-zero
+    pivot coefficients imply equal row outputs. (gates, build)"""
+    if kind == "ca":
+        ins, outs, ga, gb = ("xq", "yq", "xs", "ys", "b"), ("xr", "yr"), ra["gates"], rb["gates"]
+    else:
+        ra, rb = ra["dbl"], rb["dbl"]
+        ins, outs, ga, gb = ("xp", "yp"), ("xq", "yq"), ra["gates"], rb["gates"]
 
-
-def budgets():
-    return (35, 10) if core.tier() == "quick" else (420, 90)
-
-
-def ladder_pivots(e, lad, li):
-    """pivot forms of the four output equations of every row of a ladder, in a fixed order"""
-    out = []
-    for i, r in enumerate(lad["rows"]):
-        for g in r["gates"]:
-            j = g["gate"].rsplit(":", 1)[1]
-            if j in ("0", "1"):
-                out.append(((i, "ca", j), pivot(e, g["poly"], r["xr"] if j == "0" else r["yr"], f"ladder {li} row {i} cond-add {j}")))
-        if r["dbl"]:
-            for g in r["dbl"]["gates"]:
-                j = g["gate"].rsplit(":", 1)[1]
-                if j in ("0", "1"):
-                    out.append(((i, "db", j), pivot(e, g["poly"], r["dbl"]["xq"] if j == "0" else r["dbl"]["yq"], f"ladder {li} row {i} double {j}")))
-    return out
+    def build(e):
+        full = e is not getattr(e, "_ed_main", None)
+        nz = []
+        for j, out in enumerate(outs):
+            pa = [pivot(e, g["poly"], ra[out], f"{tag} run 1 eq {j}", full) for g in ga if g["gate"].endswith(f":{j}")]
+            pb = [pivot(e, g["poly"], rb[out], f"{tag} run 2 eq {j}", full) for g in gb if g["gate"].endswith(f":{j}")]
+            if len(pa) != 1 or len(pb) != 1:
+                raise LayoutError(f"{tag}: no output equation {j}")
+            for p_ in (pa[0], pb[0]):
+                if p_ is not None and p_["sq"] is None:
+                    nz.append(ne(p_["D"], 0))
+            if full and pa[0] is not None and pb[0] is not None:
+                pair_lemmas(e, pa[0], pb[0])
+        e.__dict__.setdefault("_ed_nz", []).extend(nz)
+        hyp = [eq(e.v(ra[c]), e.v(rb[c])) for c in ins if e.v(ra[c]) != e.v(rb[c])]
+        return IMP(AND(*hyp, *nz), AND(*[eq(e.v(ra[o]), e.v(rb[o])) for o in outs]))
+    return (ga + gb, build)
 
 
 def S_det(pairs, nout=2):
@@ -418,23 +503,20 @@ def S_det(pairs, nout=2):
     run 1, ladder index of run 2)]"""
     def spec(e, I, O):
         lads, _ = ladders(e.s)
-        nz, steps = [], []
+        e._ed_main = e
+        e._ed_nz = []
+        cut = Cut(e)
         for (a, b) in pairs:
             if len(lads[a]["rows"]) != len(lads[b]["rows"]):
                 return "false"
-            pa, pb = ladder_pivots(e, lads[a], a), ladder_pivots(e, lads[b], b)
-            for (ka, x), (kb, y) in zip(pa, pb):
-                assert ka == kb
-                for p_ in (x, y):
-                    if p_ is not None and p_["sq"] is None:
-                        nz.append(ne(p_["D"], 0))
-                if x is None or y is None:
-                    continue
-                pair_lemmas(e, x, y)
-                steps.append((x["tag"], eq(x["u"], y["u"])))
-        NZ = AND(*nz)
+            for i, (ra, rb) in enumerate(zip(lads[a]["rows"], lads[b]["rows"])):
+                if (ra["dbl"] is None) != (rb["dbl"] is None):
+                    return "false"
+                cut.local(*step_conj(ra, rb, "ca", f"ladders {a}/{b} row {i} conditional add"))
+                if ra["dbl"]:
+                    cut.local(*step_conj(ra, rb, "db", f"ladders {a}/{b} row {i} double"))
+        NZ = AND(*sorted(set(e._ed_nz)))
         goal = AND(*[eq(O[j], O[nout + j]) for j in range(nout)])
-        cut(e, [(nm, IMP(NZ, f)) for nm, f in steps], *budgets())
         return IMP(NZ, goal)
     return spec
 
@@ -473,3 +555,210 @@ def nonresidue_obligation(run, values, tag="C06/M"):
         else:
             ob.set(core.INCONCLUSIVE, f"ground evaluation came back {r.status}/{r2.status}")
         run.log(f"{ob.status:12s} {ob.id} {ob.solver or ''} {ob.solver_s:.1f}s {ob.detail[:120]}")
+
+
+# ---- forged assignments for obligations the deciding query left open -----------------------------------------
+# When a defining constraint is missing, the deciding query `Sys and not Spec` has real models, but the solvers return
+# models of the ABSTRACTION (uninterpreted products) and the engine's refinement (8 rounds) does not converge on a
+# ladder. This search makes the model exact row by row: input cells keep their honest values; cells that a row
+# determines (the row is linear in its only unknown cell) are computed exactly; where several cells of a row are
+# still unknown the SOLVER picks them from that row's sub-system with every known cell pinned - once with the extra
+# demand "differ from the honest run", afterwards preferring the honest values. The completed assignment is
+# accepted only if (1) every extracted constraint holds exactly, (2) the solver confirms on ground terms that the
+# specification is violated, (3) the real MockProver accepts it. It can only FIND violations.
+
+NO_CUT = [False]
+
+
+def _row_cls(system, poly):
+    out = []
+    for ch, cells in poly:
+        k = int(ch, 16) % system.P
+        cl = []
+        for c in cells:
+            r = system.cls(c)
+            if r in system.const:
+                k = k * system.const[r] % system.P
+            else:
+                cl.append(r)
+        if k:
+            out.append((k, cl))
+    return out
+
+
+def _solve_unit(Pm, terms, known, u):
+    """terms linear in u, every other class known: value of u, 'free' (0*u = 0), or None (inconsistent / non-linear)"""
+    c = r = 0
+    for k, cl in terms:
+        n = cl.count(u)
+        if n > 1:
+            return None
+        v = k
+        for x in cl:
+            if x != u:
+                v = v * known[x] % Pm
+        if n:
+            c = (c + v) % Pm
+        else:
+            r = (r + v) % Pm
+    if c == 0:
+        return "free" if r == 0 else None
+    return (-r * pow(c, -1, Pm)) % Pm
+
+
+def forge_assignment(system, extra, log=lambda m: None, max_frontiers=400, deviate_at=0):
+    """class -> value, deviating from the honest run at the `deviate_at`-th frontier (a row with several unknown
+    cells) and honest wherever the honest values remain consistent, satisfying every gate row exactly; None when
+    that does not work out; "exhausted" when there are fewer frontiers"""
+    Pm = system.P
+    honest = system.honest_assign()
+    rows = [(g, _row_cls(system, g["poly"])) for g in system.d["gates"]]
+    known = {system.cls(c): honest[system.cls(c)] for c in system.ins if system.cls(c) not in system.const}
+    gate_classes = set(x for _, t in rows for _, cl in t for x in cl)
+    deviated = False
+    nfront = -1
+    for _ in range(max_frontiers):
+        progress = True
+        while progress:
+            progress = False
+            for g, terms in rows:
+                unk = {x for _, cl in terms for x in cl if x not in known}
+                if len(unk) != 1:
+                    continue
+                u = next(iter(unk))
+                v = _solve_unit(Pm, terms, known, u)
+                if v is None:
+                    return None
+                if v == "free":
+                    continue
+                known[u] = v
+                progress = True
+        todo = [(len({x for _, cl in t for x in cl if x not in known}), g["row"], i) for i, (g, t) in enumerate(rows)]
+        todo = [t for t in todo if t[0] > 0]
+        if not todo:
+            break
+        _, _, i0 = min(todo)
+        U = {x for _, cl in rows[i0][1] for x in cl if x not in known}
+        G = [g for g, t in rows if {x for _, cl in t for x in cl if x not in known} <= U and any(x in U for _, cl in t for x in cl)]
+        hon_ok = all(sum(k * _prod(Pm, [known.get(x, honest.get(x, 0)) for x in cl]) for k, cl in _row_cls(system, g["poly"])) % Pm == 0 for g in G)
+        vals = None
+        nfront += 1
+        want_dev = (not deviated) and nfront == deviate_at
+        if want_dev or not hon_ok:
+            vals = _frontier_model(system, extra, G, known, U, honest, deviate=want_dev)
+            if want_dev and vals is None:
+                return None
+            if vals is not None and any(vals[u] != honest.get(u) for u in U):
+                if not deviated:
+                    log(f"forged cells at row {rows[i0][0]['row']} ({rows[i0][0]['gate']}): {len(U)} cells chosen by the solver")
+                deviated = True
+        if vals is None:
+            if not hon_ok:
+                return None
+            vals = {u: honest.get(u, 0) for u in U}
+        known.update(vals)
+    if not deviated:
+        return "exhausted" if nfront < deviate_at else None
+    for c in system.used_classes():
+        known.setdefault(c, honest.get(c, 0))
+    return known
+
+
+def _prod(Pm, vs):
+    r = 1
+    for v in vs:
+        r = r * v % Pm
+    return r
+
+
+def _frontier_model(system, extra, G, known, U, honest, deviate, rounds=6, timeout=10):
+    d = dict(system.d)
+    d["gates"] = list(G)
+    d["lookups"] = []
+    sub = csmt.System(d, system.P)
+    es = csmt.Enc(sub)
+    es.extra = extra
+    es.encode(False)
+    names = {c: n for c, n in es.vars.items()}
+    pv = {names[c]: v for c, v in known.items() if c in names}
+    goal = []
+    if deviate:
+        goal = ["(assert (or false " + " ".join(f"(not (= {names[u]} {honest.get(u, 0)}))" for u in U if u in names) + "))"]
+    for _ in range(rounds):
+        pins = dict(pv)
+        for it in es.order:       # products / linear definitions of pinned atoms are constants
+            if it[0] == "mul" and all(isinstance(x, int) or x in pins for x in (it[2], it[3])):
+                va, vb = (x if isinstance(x, int) else pins[x] for x in (it[2], it[3]))
+                pins[it[1]] = va * vb % system.P
+        atoms = sorted(set(es.vars.values())) + [it[1] for it in es.order]
+        r = solvers.solve(es.text([f"(assert (= {n} {v}))" for n, v in pins.items()] + goal), timeout=timeout, get_values=atoms)
+        if r.status != "sat":
+            return None
+        assign = {n: r.model.get(n, 0) % system.P for n in es.vars.values()}
+        exact = es.exact_atoms(assign)
+        cls_assign = {c: assign[n] for c, n in es.vars.items()}
+        if not sub.check_exact(cls_assign):
+            return {u: cls_assign[u] for u in U if u in cls_assign}
+        wrong = [it for it in es.order if it[0] == "mul" and r.model.get(it[1]) is not None and r.model[it[1]] != exact[it[1]]]
+        if not wrong:
+            return None
+        for _, t, a, b in wrong[:40]:
+            va, vb = (exact[a] if not isinstance(a, int) else a), (exact[b] if not isinstance(b, int) else b)
+            q1 = es.fresh("q", 0, system.P)
+            es.lines.append(f"(assert (=> (= {a} {va}) (= {t} (- (* {va} {b}) (* {system.P} {q1})))))")
+            if a != b:
+                q2 = es.fresh("q", 0, system.P)
+                es.lines.append(f"(assert (=> (= {b} {vb}) (= {t} (- (* {vb} {a}) (* {system.P} {q2})))))")
+    return None
+
+
+def forge(run, ob, family, ent, timeout=30):
+    """try to turn an undecided ladder obligation into a replayed VIOLATION"""
+    from . import cengine
+    t0 = time.time()
+    system = cengine.extract(family, ent["op"], ent["params"], ent["ins"], ent["k"])
+    if not system.d["honest_verify"]:
+        return False
+    for k in range(24):
+        if time.time() - t0 > 4 * timeout:
+            return False
+        cls_assign = forge_assignment(system, system.d.get("extra", {}), log=lambda m: run.log(f"  {ob.id}: {m}"), deviate_at=k)
+        if cls_assign == "exhausted":
+            return False
+        if cls_assign is None or system.check_exact(cls_assign):
+            continue
+        if _forge_finish(run, ob, family, ent, system, cls_assign, timeout, t0):
+            return True
+    return False
+
+
+def _forge_finish(run, ob, family, ent, system, cls_assign, timeout, t0):
+    from . import cengine
+    e = csmt.Enc(system)
+    e.extra = system.d.get("extra", {})
+    e.encode(False)
+    Iat = [e.v(c) for c in system.ins]
+    Oat = [e.v(c) for c in system.outs]
+    NO_CUT[0] = True
+    try:
+        spec_smt = ent["spec"](e, Iat, Oat)
+    finally:
+        NO_CUT[0] = False
+    assign = {n: cls_assign.get(c, 0) for c, n in e.vars.items()}
+    exact = e.exact_atoms(assign)
+    pins = [f"(assert (= {n} {v}))" for n, v in exact.items()]
+    r2 = solvers.solve(e.text(pins + [f"(assert (not {spec_smt}))"]), timeout=timeout)
+    ob.queries += 1
+    if r2.status != "sat":
+        return False
+    ov = cengine.overrides_from_model(system, e, assign)
+    res, err = cengine.replay(family, ent["op"], ent["params"], ent["ins"], ent["k"], ov)
+    if not (res and res.get("accepted")):
+        return False
+    iv = {c: hex(cls_assign.get(system.cls(c), system.const.get(system.cls(c), 0))) for c in system.ins + system.outs}
+    path = run.write_replay(ob, dict(kind="forged-assignment", cx=cengine.cx_args(family, ent["op"], ent["params"], ent["ins"], ent["k"]),
+                                     overrides=ov, instance=iv,
+                                     note="real MockProver::verify() accepts this assignment although the (inputs, outputs) on the instance column violate the operation's specification (assignment completed row by row from solver-chosen cells, edladder.forge)"))
+    ob.set(core.VIOLATION, f"{ent['op']} {ent['params']}: the real MockProver accepts instance {iv} which violates the specification", solver=r2.solver, replay=path)
+    ob.solver_s += time.time() - t0
+    return True
